@@ -95,6 +95,21 @@ ENUMS = {
 }
 
 
+def dfta_reject_filter(grammar, rejected, state):
+    """A DFTAFilter whose automaton has one state and a rule for every symbol of
+    the grammar except the rejected leaves: it rejects exactly the programs that
+    contain one of them."""
+    from synth.filter.dfta_filter import DFTAFilter
+    from synth.syntax.automata.tree_automaton import DFTA
+    rules = {}
+    for S in grammar.rules:
+        for P in grammar.rules[S]:
+            if P in rejected:
+                continue
+            rules[(P, tuple([state] * grammar.arguments_length_for(S, P)))] = state
+    return DFTAFilter(DFTA(rules, {state}))
+
+
 class SetRejectFilter(Filter):
     def __init__(self, rejected):
         self.rejected = rejected
@@ -121,7 +136,9 @@ def impl(case):
         return impl_u(case, grammar)
     pg = make_weights(grammar, case["weights"])
     en = ENUMS[case["enum"]](pg, case.get("params", {}))
-    if case.get("rejected") is not None:
+    if case.get("dfta_rejected") is not None:
+        en.filter = dfta_reject_filter(grammar, {O.prog(w) for w in case["dfta_rejected"]}, case.get("dfta_state", 0))
+    elif case.get("rejected") is not None:
         en.filter = SetRejectFilter({O.prog(w) for w in case["rejected"]})
     merges = {m[0]: (O.prog(m[1]), O.prog(m[2])) for m in case.get("merges", [])}
     limit = case.get("limit", 20000)
